@@ -174,7 +174,7 @@ def generate_fwf(
                 out_filehandler.write(generate_fwf_row(fwf_row, fwf_format, filler))
 
     if save_to:
-        out_filehandler.close
+        out_filehandler.close()
 
     return fwf_table
 
